@@ -257,6 +257,12 @@ pub fn gen_case_full(c: &mut Chooser, op: &str, prop: &str, small: bool, deep: b
             }
         },
     };
+    // deep configurations: larger counts for take / skip as well
+    let topo = match topo {
+        Topo::Unary(UnOp::Take(n)) if deep && n > 0 => Topo::Unary(UnOp::Take(1 + c.choose(9))),
+        Topo::Unary(UnOp::Skip(_)) if deep => Topo::Unary(UnOp::Skip(c.choose(9))),
+        t => t,
+    };
     if credit {
         allow_late = false;
     }
